@@ -29,10 +29,62 @@ class C05(Check):
                 "Pox.C05.once_removed", "Pox.C05.unsubscribe_exact", "Pox.C05.sources_independent", "Pox.C05.noerrors_partial",
                 "Pox.C05.noerrors_defect", "Pox.C05.undeclared_rejected", "Pox.C05.weak_gone", "Pox.C05.lazy_init",
                 "Pox.C05.once_raises_defect", "Pox.Revent.drive_eq_run"]
-    R = "pox/lib/revent/revent.py"       # function bodies only (a `def` line runs at import time, not in a case)
-    anchors = [(R, 222, 229), (R, 241, 250), (R, 260, 317), (R, 329, 329), (R, 340, 382), (R, 391, 392), (R, 401, 410),
-               (R, 439, 476), (R, 487, 487), (R, 499, 499), (R, 505, 505), (R, 531, 565), (R, 582, 586), (R, 591, 594),
-               (R, 597, 600), ("pox/core.py", 139, 147)]
+    # name-based anchors, resolved on the current source at every run (robust to line shifts); the range of a definition
+    # starts at its first statement after the docstring (the `def` line itself only runs at import time)
+    ANCHORED = [("pox/lib/revent/revent.py", q) for q in (
+                    "EventMixin._eventMixin_init", "EventMixin.raiseEventNoErrors", "EventMixin.raiseEvent",
+                    "EventMixin._eventMixin_get_listener_count", "EventMixin.removeListener", "EventMixin.addListenerByName",
+                    "EventMixin.add_listener", "EventMixin.addListener", "EventMixin.listenTo", "EventMixin.addListeners",
+                    "EventMixin.clearHandlers", "autoBindEvents", "CallProxy.__init__", "CallProxy._forgetMe", "CallProxy.__call__")] + \
+               [("pox/core.py", "_revent_exception_hook")]
+
+    @property
+    def anchors(self):
+        import ast, os
+        out = []
+        for rel, qual in self.ANCHORED:
+            path = os.path.join(common.REPO, rel)
+            r = common.resolve_qualname(path, qual)
+            if r is None:
+                out.append((rel, qual)); continue            # AnchorCoverage reports it as unresolved
+            node = ast.parse(open(path).read())
+            for part in qual.split("."):
+                node = [c for c in node.body if isinstance(c, (ast.FunctionDef, ast.ClassDef)) and c.name == part][0]
+            body = node.body
+            if isinstance(body[0], ast.Expr) and isinstance(getattr(body[0], "value", None), ast.Constant) and isinstance(body[0].value.value, str):
+                body = body[1:] or body
+            out.append((rel, body[0].lineno, r[1]))
+        return out
+
+    # which of the proposed repairs D24 / D60 the tree has, read off the source (AST shapes; an unknown shape is an error, not a guess)
+    D24_SHAPES = {False: "raise",
+                  True: "eventType = event.__class__ if isinstance(event, Event) else event\n"
+                        "if self._eventMixin_events is not True and eventType not in self._eventMixin_events:\n    raise\n"
+                        "if handleEventException is not None:\n    import sys\n    handleEventException(self, event, args, kw, sys.exc_info())"}
+    D60_SHAPES = {False: "if classCall:\n    rv = event._invoke(handler, *args, **kw)\nelse:\n    rv = handler(event, *args, **kw)\n"
+                         "if once:\n    self.removeListener(eid)",
+                  True: "try:\n    if classCall:\n        rv = event._invoke(handler, *args, **kw)\n    else:\n        rv = handler(event, *args, **kw)\n"
+                        "finally:\n    if once:\n        self.removeListener(eid)"}
+
+    def detect_variant(self):
+        import ast, os
+        tree = ast.parse(open(os.path.join(common.REPO, "pox/lib/revent/revent.py")).read())
+        cls = [n for n in tree.body if isinstance(n, ast.ClassDef) and n.name == "EventMixin"][0]
+        fns = {f.name: f for f in cls.body if isinstance(f, ast.FunctionDef)}
+        tries = [n for n in fns["raiseEventNoErrors"].body if isinstance(n, ast.Try)]
+        hs = [h for t in tries for h in t.handlers if h.type is not None and ast.unparse(h.type) == "ReventError"]
+        if len(hs) != 1: raise RuntimeError("raiseEventNoErrors: `except ReventError` not found")
+        t24 = "\n".join(ast.unparse(x) for x in hs[0].body)
+        loops = [n for n in fns["raiseEvent"].body if isinstance(n, ast.For)]
+        if len(loops) != 1: raise RuntimeError("raiseEvent: dispatch loop not found")
+        t60 = "\n".join(ast.unparse(x) for x in loops[0].body)
+        out = {}
+        for name, text, shapes in (("d24", t24, self.D24_SHAPES), ("d60", t60, self.D60_SHAPES)):
+            hits = [k for k, shape in shapes.items() if text == shape or (name == "d60" and text.startswith(shape + "\n"))]
+            if len(hits) != 1: raise RuntimeError("revent.py: %s site has a shape the C05 model does not know:\n%s" % (name, text[:400]))
+            out[name] = hits[0]
+        return out
+
     trusted_base = ["model Model/Revent.lean hand-written from EventMixin (raiseEvent*, addListener*, removeListener, autoBindEvents, "
                     "CallProxy, lazy _eventMixin_init, event.halt) as repaired by D01 and D28; tied to the code by this correspondence run",
                     "harness: scripted handlers, event ids normalised by the value of revent._nextEventID at case start, "
@@ -74,6 +126,7 @@ class C05(Check):
         poxenv.boot(openflow=False)
         import pox.lib.revent.revent as rv
         self.rv = rv
+        self.variant = self.detect_variant()
         self.Ev = []
         def __init__(self, fid=None):
             self.fid = fid
@@ -314,7 +367,7 @@ class C05(Check):
 
     # ------------------------------------------------------------------ model side
     def model_request(self, case):
-        return {"sources": case["sources"], "fuel": FUEL, "ops": case["ops"], "scripts": case["scripts"]}
+        return {"variant": self.variant, "sources": case["sources"], "fuel": FUEL, "ops": case["ops"], "scripts": case["scripts"]}
 
     VIEW = ("log", "frames", "final", "count", "inited")
     def impl_view(self, case, obs):
